@@ -424,6 +424,8 @@ def isinstance_static(self, v, cls_node, st):
             if callable(want):
                 return want(self, v, st)
             return z3.BoolVal(v.t.name() == want or (isinstance(v.t, Obj) and want in self.reg.mro(v.t.cls)))
+        if isinstance(v, Unknown):
+            return self.isinstance_unknown(v, txt)      # an untracked value: its class is not known (never "False")
         return z3.BoolVal(False)
     if isinstance(v, Val):
         if txt == "int":
@@ -431,7 +433,13 @@ def isinstance_static(self, v, cls_node, st):
         if txt == "bytes":
             return z3.BoolVal(False) if v.t in (Int, Bool) else self.isinstance_unknown(v, txt)
         if isinstance(v.t, Obj):
-            return z3.BoolVal(txt in self.reg.mro(v.t.cls)) if txt in self.reg.classes or True else None
+            if txt in self.reg.mro(v.t.cls):
+                return z3.BoolVal(True)
+            if txt in self.reg.classes and v.t.cls in self.reg.mro(txt):
+                # the tested class is a SUBCLASS of the declared type: the dynamic type decides (declared types stand for
+                # "this class or a subclass"); never answer False statically
+                return self.isinstance_unknown(v, txt)
+            return z3.BoolVal(False)
         if isinstance(v.t, Opaque):
             if v.t.nm == txt:
                 return z3.BoolVal(True)
@@ -1425,7 +1433,9 @@ def bind_params(self, c, fnode, args, kwargs, st):
     # coerce to declared parameter types
     for n, t in c.params.items():
         if n in env and isinstance(t, ty.T):
-            if isinstance(env[n], (BoundMethod, Closure, FuncRef)) and isinstance(t, (Fun, Opaque)):
+            if isinstance(env[n], (BoundMethod, Closure, FuncRef)) and isinstance(t, Opt) and isinstance(t.elt, (Fun, Opaque)):
+                env[n] = Val(t, t.some(fresh("callable", t.elt.sort())))
+            elif isinstance(env[n], (BoundMethod, Closure, FuncRef)) and isinstance(t, (Fun, Opaque)):
                 env[n] = Val(t, fresh("callable", t.sort()))      # identity of a passed callable is not tracked
             else:
                 env[n] = self.coerce(self.iter_to_val(env[n], t, st), t, st)
